@@ -2,7 +2,7 @@
 import math
 from fractions import Fraction
 
-from vf.claim import Claim, assume, enum, fork, pick, raises_, real, symbolic_mode
+from vf.claim import Claim, assume, enum, fork, pick, raises_, real, symbolic_mode, unsupported
 from vf.fuel import FuelExhausted, with_fuel
 from vf.dyadic import Dy, validate as _dy_validate
 
@@ -130,9 +130,15 @@ def c09_beat_float(m: int, neg: bool) -> bool:
     num = (2 ** 52 + m)
     if neg:
         num = -num
-    d = Dy(num, e - 52)
-    r = _VBD(d)
     want = (not neg) and m == 0 and e >= 0
+    if not symbolic_mode():
+        # concrete replay: the real double through the real function
+        return bool(meter.valid_beat_duration(float(num) * 2.0 ** (e - 52))) == want
+    d = Dy(num, e - 52)
+    try:
+        r = _VBD(d)
+    except (TypeError, AttributeError, AssertionError) as exc:
+        unsupported("the code used an operation the exact dyadic stand-in does not model: %r" % (exc,))
     return bool(r) == want
 
 
